@@ -34,8 +34,11 @@ TRUSTED = ["modelled, not verified: NumPy/SciPy array semantics used by the Pyth
            "topo_counts) for every image that reduces to the empty image by deletions of simple pixels and isolated "
            "points, simple fillings and closing of one-pixel holes; membership in that class is certified per case by "
            "the extracted, verified search reduce_label (evidence: euler_certified_reducible / euler_not_certified); the "
-           "global lemma that every finite image is so reducible is not proved (Partial); Finite sweeps cover all "
-           "small images; the executable flood-fill definition euler_spec is evaluated on every generated case too",
+           "hole-free labels and labels with single-pixel holes are proved reducible for every size (C05's end-pixel "
+           "lemma imported) and euler_spec is proved equal to the plane counts; for EVERY image the equality is proved by "
+           "induction over the pixels in raster order from ONE unproved premise, the existence half of the digital Jordan "
+           "lemma at the raster-last pixel (C15_euler_all_images_partial; the separation half is C05's "
+           "sep_not_connected, imported) - Partial for that reason only; Finite sweeps cover all small images; the executable flood-fill definition euler_spec is evaluated on every generated case too",
            "the spanning-forest certificate for all_connected_components is computed by the Python harness but only "
            "verified by the extracted Spec.LabelGraph.acc_cert_ok (soundness proved), so it is not trusted"]
 ASSUMPTIONS = ["labels are non-negative integers; label images are rectangular and non-empty",
@@ -689,13 +692,16 @@ MANIFEST = {
         "euler_number's shifted-plane arithmetic equals the bit-quad counts of the label's pixel set, and 4W = "
         "4(components - holes), counted declaratively in the plane with C05's imported topology theorems, for every "
         "image reducible by simple deletions/fillings, isolated-point deletions and one-pixel-hole closings (a "
-        "verified search certifies this per generated case). The model is tied "
+        "verified search certifies this per generated case; hole-free labels and labels with single-pixel holes are "
+        "proved reducible for every size); for EVERY image the same equality follows by raster-order induction from one "
+        "named, unproved premise (the existence half of the digital Jordan lemma). The model is tied "
         "to the code by exact comparison of complete outputs on every generated case (extracted OCaml, sub-sample "
         "re-evaluated by vm_compute), and the executable flood-fill specification (components, holes, adjacency, "
         "partition, proper colouring) is evaluated on the implementation's own output of every case."),
     "level_note": (
         "Trusted: Coq kernel + vm_compute; extraction (ExtrOcamlBasic only) and the S-expression driver; the Python "
-        "harness; NumPy/SciPy semantics as transcribed. euler = components - holes is Finite in general (Partial); "
+        "harness; NumPy/SciPy semantics as transcribed. euler = components - holes: Full for reducible / hole-free / single-pixel-hole images, for every image "
+        "conditional on one named Jordan-type premise (Partial); "
         "the tie between model and code is differential, not a proof about Python/C++."),
     "technique": "Coq proof over executable model + exact differential correspondence + executable spec on outputs",
     "design_ref": "DESIGN.md section 7, C15",
